@@ -2,7 +2,7 @@
 """Writes the libFuzzer seed corpora corpus/C14/framing_{header,raw,packet}/ (run once; the output is committed).
 
 Input format of the fuzz targets (see decodeBytes in framing.cpp): stream bytes, then 2n bytes of big-endian cut
-positions, then one byte n (mod 8).  A seed is therefore "stream + trailer"."""
+positions, then one byte: n in the low 3 bits, bits 3-4 == 01 switch traffic logging on.  A seed is therefore "stream + trailer"."""
 import os, struct, hashlib
 
 ROOT = os.path.join(os.path.dirname(os.path.abspath(__file__)), "..", "..", "corpus", "C14")
@@ -26,8 +26,9 @@ MSGS = [
 ]
 
 
-def trailer(cuts):
-    return b"".join(struct.pack(">H", c & 0xffff) for c in cuts) + bytes([len(cuts)])
+def trailer(cuts, log=False):
+    # last byte: low 3 bits = number of cuts, bits 3-4 == 01 -> traffic logging on
+    return b"".join(struct.pack(">H", c & 0xffff) for c in cuts) + bytes([len(cuts) | (8 if log else 0)])
 
 
 def hdr(length, magic=MAGIC):
@@ -58,6 +59,13 @@ def main():
         put("framing_header", hdr(length) + m + hdr(len(m)) + m + trailer([6]))
     put("framing_header", hdr(0) + trailer([]))
     put("framing_header", hdr(2) + b"[]" + hdr(2) + b"{}" + trailer([1, 2, 3, 4, 5]))
+    # ---- traffic logging on (a few per framing)
+    for m in MSGS[:6]:
+        put("framing_header", hdr(len(m)) + m + trailer([], True))
+        put("framing_raw", m + trailer([len(m) // 2], True))
+        put("framing_packet", m + trailer([], True))
+    put("framing_packet", MSGS[0] + MSGS[4] + trailer([len(MSGS[0])], True))
+    put("framing_header", two + trailer([9], True))
     # ---- raw-stream
     for m in MSGS:
         put("framing_raw", m + trailer([]))
